@@ -88,6 +88,40 @@ func mGroup(groups ...string) func(m *rules.MMethod) bool {
 
 func init() {
 	register(&Property{
+		ID:        "C01",
+		Technique: "static analysis: path enumeration over canonicalised accessor functions with boolean implication of the bounds/arity facts (truth table); type-token coherence of typed get/set arms",
+		Explain: "Decides the rejection clause and the wiring of coordinate addressing: (S1) every non-error iteration path of Ltoi's coordinate loop has established coord >= 0 and coord < size, and the scalar branch accepts only 0; (S2) in At/SetAt/MaskAt/SetMaskAt every path to Get/Set/mask[...] has passed the arity check and the error check of the offset computation and uses exactly that offset, at() is Ltoi over the tensor's own Shape() and Strides(), maskAt() is at(); (K3/K1arms) the typed Get/Set/Memset arms of array and storage.Header use only accessors and assertions of their own label type and agree with their sibling arms; (S8) stride-routine selection by data order. " +
+			"Not decided: that CalcStrides* compute the right products and that Ltoi's sum is the rank in data order (value arithmetic); behaviour of the column-major converting constructor.",
+		Run: func(rc *rules.RC) {
+			rules.S1(rc)
+			rules.S2(rc)
+			rules.K3(rc, fileFilter("array_getset.go", "getset.go", "array.go", "dense_generated.go"), 8, 130)
+			fams := rules.Families(rc.P)
+			rules.K1(rc, fams, func(f string) bool { return strings.HasPrefix(f, "internal/storage.") }, 50)
+		},
+	})
+	register(&Property{
+		ID:        "C02",
+		Technique: "static analysis: path enumeration with boolean implication over the slice validators; term extraction and sibling comparison of the two slice-length calculators; structural co-slicing rule",
+		Explain: "Decides: (S3) CheckSlice accepts only when start <= end, start >= 0, not(step == 0 and end-start > 1), start < size, and SliceDetails validates every non-nil slice, clamps end and expands nil to (0,size,1); (S4) AP.S and Shape.S refuse more slices than axes and take (start,end,step) of every axis from SliceDetails; (S5) the length term under step > 0 is ceil((end-start)/step) with no extra condition, identical in both calculators; (S9) Slice/SliceInto take window and access pattern from one AP.S call, slice data and mask with the same window, record the parent and copy dtype/engine/flag. " +
+			"Not decided: offset (ndStart/ndEnd) arithmetic, stride scaling, which dimensions are dropped, contiguity flagging.",
+		Run: func(rc *rules.RC) {
+			rules.S3(rc)
+			rules.S5(rc)
+			rules.S9(rc)
+		},
+	})
+	register(&Property{
+		ID:        "C13",
+		Technique: "static analysis: term extraction and sibling comparison of shape calculators; path enumeration with boolean implication over the reshape gate",
+		Explain: "Decides: (S5) the shape-only slice calculator and the access-pattern slice calculator compute the same length term, which is ceil((end-start)/step); (S4) both validate through SliceDetails and refuse too many slices; (S7) every path of Reshape that reaches reshape() has established equal total size, is not a non-contiguous view and has materialised a pending lazy transpose, and reshape() only sets the shape and checks sanity. " +
+			"Not decided: that shape and strides address distinct in-bounds positions (a runtime invariant over values), that reshape preserves the flat sequence, repeat/concat calculators' arithmetic.",
+		Run: func(rc *rules.RC) {
+			rules.S5(rc)
+			rules.S7(rc)
+		},
+	})
+	register(&Property{
 		ID:        "C07",
 		Technique: "static analysis: abstract interpretation of every option-mode case of the generated engine methods over a symbolic term domain, checked against the mode contract",
 		Explain: "Decides, for each of the generated StdEng arithmetic, comparison, min/max and unary methods (and Clamp) and for every scenario = option mode {safe, unsafe, reuse, incr} x scalar side x result kind x iterator/raw path x {destination distinct, destination aliasing an operand} x {many elements, one element}: which tensor is returned, that its buffer finally holds Op(L,R) of the original operand values in operand order (incr: destination + Op), that no buffer other than the designated destination, fresh tensors and the scalar scratch header is written (M2), and that every buffer is indexed through its own iterator, never a nil or already consumed one (M3). " +
